@@ -17,6 +17,7 @@ from typing import Any
 from spacepackets.cfdp import (
     ChecksumType,
     ConditionCode,
+    Direction,
     FaultHandlerCode,
     TransactionId,
     TransmissionMode,
@@ -70,6 +71,8 @@ DEFAULT_CFG: dict[str, Any] = {
     "cks": "crc32",
     "imm_nak": True,
     "root_tag": None,
+    "scribble_user": False,
+    "scribble_pdus": False,
     "ack_limit": 3,
     "nak_limit": 3,
     "check_limit": 2,
@@ -258,6 +261,15 @@ class Endpoint:
                 obj_packet_len=getattr(holder.pdu, "packet_len", None),
             )
             self.outbox.append({"raw": use, "d": d, "seq": ev["seq"], "side": self.side})
+            if self.w.cfg["scribble_pdus"]:
+                # the PDU object was handed out: it is the user's now.  A user (or a receiving handler it is passed to as an object) may edit it;
+                # here the direction flag of its header is flipped after the bytes were taken.
+                try:
+                    hdr = holder.pdu.pdu_header
+                    hdr.direction = Direction.TOWARDS_SENDER if hdr.direction == Direction.TOWARDS_RECEIVER else Direction.TOWARDS_RECEIVER
+                    self.w.scribbled_pdus += 1
+                except Exception:  # noqa: BLE001
+                    pass
         return n
 
 
@@ -276,6 +288,7 @@ class World:
         self.sandbox: Path | None = None
         self._build_fs()
         self.call_hook = None
+        self.scribbled_pdus = 0
         self._build_handlers()
         self.tid: TransactionId | None = None
 
@@ -427,6 +440,7 @@ class World:
             for cond, code in over.items():
                 fh.set_handler(ConditionCode[cond], FHC[code])
         suser, duser = RecUser(self.log, "S", self.src_fs), RecUser(self.log, "D", self.dst_fs)
+        suser.scribble = duser.scribble = bool(c["scribble_user"])
         self.seq_provider = SeqCountProvider(c["seqw"])
         self.seq_provider.count = c["seq_start"]
         self.src_ctp, self.dst_ctp = _CTP(c["check_ivl_ms"]), _CTP(c["check_ivl_ms"])
@@ -612,8 +626,12 @@ class Runner:
         max_rounds: int = 4000,
         max_expiries: int = 60,
         actions: dict[int, list] | None = None,
+        drift_ms: tuple[int, int] | None = None,
     ):
         self.w = world
+        # drift_ms = (seed, max): before every handler call up to max ms of virtual time may pass (the entities are slow, nothing is lost)
+        self.drift = None if drift_ms is None else (random.Random(drift_ms[0]), drift_ms[1])
+        self.drifted_ms = 0
         self.plan = plan or Plan()
         self.plan.runner = self  # (a plan may look at the run so far, e.g. the number of timer expiries)
         self.pacing = {"src_calls": 1, "dst_calls": 1, "dst_idle": 0, "src_idle": 0}
@@ -728,6 +746,7 @@ class Runner:
 
     def call_sm(self, ep: Endpoint, pdu=None, d=None) -> None:
         desc = None if d is None else {k: v for k, v in d.items() if k not in ("data", "h")}
+        self._drift()
         try:
             ep.sm(pdu, desc)
         except PROTO_EXC as e:
@@ -783,6 +802,14 @@ class Runner:
         ms = vclock.advance_to_next_expiry()
         self.expiries += 1
         self.w.log.add("clock", "-", advanced_ms=ms, now=vclock.now_ms(), n=self.expiries)
+
+    def _drift(self) -> None:
+        if self.drift is not None:
+            ms = self.drift[0].choice([0, 0, 0, self.drift[1] // 10, self.drift[1]])
+            if ms:
+                vclock.use(self.w.clock)
+                vclock.advance(ms)
+                self.drifted_ms += ms
 
     def round(self) -> None:
         p = self.pacing
